@@ -48,6 +48,7 @@ type PState struct {
 	defers []string          // deferred event names (order of registration)
 	alias  map[string]string // phi/cell key -> key of the value it stands for
 	trace  []string          // compact path description (block indices), for witnesses
+	ret    *ssa.Return       // transient: the return instruction through which an analysed-in-place callee was left
 }
 
 func newPState() *PState {
@@ -137,7 +138,22 @@ func (s *PState) Res(ev string, idx int) Tri {
 	if !ok {
 		return Unknown
 	}
-	return s.facts[fmt.Sprintf("%s#%d", l, idx)]
+	k := fmt.Sprintf("%s#%d", l, idx)
+	// a call analysed in place: its result stands for what the callee returned on this path
+	for i := 0; i < 8; i++ {
+		a, ok := s.alias[k]
+		if !ok {
+			break
+		}
+		k = a
+	}
+	switch k {
+	case "const:nil", "const:true":
+		return True
+	case "const:false", "const:nonnil":
+		return False
+	}
+	return s.facts[k]
 }
 
 // PathRule is one instance of the engine.
@@ -186,9 +202,11 @@ type pathEngine struct {
 	badSeen map[string]bool
 	depth   int
 	steps   int
-	evErr   map[string]int           // event -> index of the error result of its call sites
-	vals    map[string]ssa.Value     // value key -> value
-	dfns    map[string]*ssa.Function // deferred closure id -> function
+	evErr   map[string]int                                        // event -> index of the error result of its call sites
+	vals    map[string]ssa.Value                                  // value key -> value
+	dfns    map[string]*ssa.Function                              // deferred closure id -> function
+	fvCell  map[*ssa.FreeVar]ssa.Value                            // captured variable -> the value bound to it at the (single) MakeClosure site
+	loadUse map[*ssa.Function]map[string]map[*ssa.BasicBlock]bool // per function: load key -> blocks from which a use of the load is reachable
 }
 
 const maxStatesPerBlock = 3000
@@ -281,6 +299,96 @@ func (e *pathEngine) vkeyRaw(v ssa.Value) string {
 	return v.Name()
 }
 
+// cellOf resolves an address to the local variable cell it denotes: an Alloc, or the Alloc a closure's free variable is
+// bound to (followed through nested closures). nil if the address is not a local cell.
+func (e *pathEngine) cellOf(addr ssa.Value) *ssa.Alloc {
+	for i := 0; i < 4; i++ {
+		switch x := addr.(type) {
+		case *ssa.Alloc:
+			return x
+		case *ssa.FreeVar:
+			if e.fvCell == nil {
+				e.fvCell = map[*ssa.FreeVar]ssa.Value{}
+			}
+			b, ok := e.fvCell[x]
+			if !ok {
+				fn := x.Parent()
+				idx := -1
+				for j, fv := range fn.FreeVars {
+					if fv == x {
+						idx = j
+					}
+				}
+				if outer := fn.Parent(); outer != nil && idx >= 0 {
+					n := 0
+					for _, blk := range outer.Blocks {
+						for _, in := range blk.Instrs {
+							if mc, ok := in.(*ssa.MakeClosure); ok && mc.Fn == fn && idx < len(mc.Bindings) {
+								b = mc.Bindings[idx]
+								n++
+							}
+						}
+					}
+					if n != 1 {
+						b = nil // several closure values of the same literal: cannot tell which variable
+					}
+				}
+				e.fvCell[x] = b
+			}
+			if b == nil {
+				return nil
+			}
+			addr = b
+		default:
+			return nil
+		}
+	}
+	return nil
+}
+
+// loadLiveness computes, for every load of a local cell in f, the blocks from which one of its uses is still reachable.
+func (e *pathEngine) loadLiveness(f *ssa.Function) map[string]map[*ssa.BasicBlock]bool {
+	if m, ok := e.loadUse[f]; ok {
+		return m
+	}
+	if e.loadUse == nil {
+		e.loadUse = map[*ssa.Function]map[string]map[*ssa.BasicBlock]bool{}
+	}
+	m := map[string]map[*ssa.BasicBlock]bool{}
+	for _, b := range f.Blocks {
+		for _, in := range b.Instrs {
+			u, ok := in.(*ssa.UnOp)
+			if !ok || u.Op != token.MUL || e.cellOf(u.X) == nil {
+				continue
+			}
+			live := map[*ssa.BasicBlock]bool{}
+			var up func(x *ssa.BasicBlock)
+			up = func(x *ssa.BasicBlock) {
+				if live[x] {
+					return
+				}
+				live[x] = true
+				if x == b {
+					return // the definition: nothing above it holds this value
+				}
+				for _, p := range x.Preds {
+					up(p)
+				}
+			}
+			if refs := u.Referrers(); refs != nil {
+				for _, r := range *refs {
+					if r.Block() != nil {
+						up(r.Block())
+					}
+				}
+			}
+			m[e.vkey(u)] = live
+		}
+	}
+	e.loadUse[f] = m
+	return m
+}
+
 // resolve follows phi/cell aliases of the state to the value key currently denoted.
 func (e *pathEngine) resolve(st *PState, v ssa.Value) (string, ssa.Value) {
 	// strip conversions that preserve nil-ness / truth
@@ -296,6 +404,16 @@ func (e *pathEngine) resolve(st *PState, v ssa.Value) (string, ssa.Value) {
 		break
 	}
 	k := e.vkey(v)
+	if _, has := st.alias[k]; !has {
+		// a load of a local variable whose own record was dropped (dead) or never made: the variable's current content
+		if u, ok := v.(*ssa.UnOp); ok && u.Op == token.MUL {
+			if c := e.cellOf(u.X); c != nil {
+				if a, ok := st.alias["cell:"+e.vkeyRaw(c)]; ok {
+					k = a
+				}
+			}
+		}
+	}
 	for i := 0; i < 8; i++ {
 		if a, ok := st.alias[k]; ok {
 			k = a
@@ -560,6 +678,14 @@ func (e *pathEngine) run(f *ssa.Function, st0 *PState) []*PState {
 					}
 				}
 			}
+			// records of loads none of whose uses can still be reached only multiply states: drop them
+			if lv := e.loadLiveness(f); len(lv) > 0 {
+				for lk, live := range lv {
+					if _, has := st.alias[lk]; has && !live[b] {
+						delete(st.alias, lk)
+					}
+				}
+			}
 			k := st.key()
 			m := visited[b]
 			if m == nil {
@@ -598,6 +724,7 @@ func (e *pathEngine) run(f *ssa.Function, st0 *PState) []*PState {
 				forked = true
 			case *ssa.Return:
 				e.target(in, st)
+				st.ret = x
 				exits = append(exits, st)
 				forked = true
 			case *ssa.Panic:
@@ -696,14 +823,14 @@ func (e *pathEngine) step(in ssa.Instruction, st *PState) {
 			}
 		}
 	case *ssa.Store:
-		// local cells (named results spilled by defer, variables captured by closures)
-		if a, ok := x.Addr.(*ssa.Alloc); ok {
+		// local cells (named results spilled by defer, variables captured by closures — also written from inside them)
+		if a := e.cellOf(x.Addr); a != nil {
 			k := e.aliasTarget(st, x.Val)
 			st.alias["cell:"+e.vkeyRaw(a)] = k
 		}
 	case *ssa.UnOp:
 		if x.Op == token.MUL {
-			if a, ok := x.X.(*ssa.Alloc); ok {
+			if a := e.cellOf(x.X); a != nil {
 				if k, ok := st.alias["cell:"+e.vkeyRaw(a)]; ok {
 					st.alias[e.vkey(x)] = k
 				} else {
@@ -863,6 +990,7 @@ func (e *pathEngine) maybeInline(in ssa.Instruction, st *PState) ([]*PState, boo
 		return nil, false
 	}
 	var callee *ssa.Function
+	viaPredicate := false
 	switch x := in.(type) {
 	case *ssa.Call:
 		c := x.Common()
@@ -873,6 +1001,10 @@ func (e *pathEngine) maybeInline(in ssa.Instruction, st *PState) ([]*PState, boo
 				callee = f
 			} else if e.r.Inline != nil && e.r.Inline(origin(f)) && len(f.Blocks) > 0 {
 				callee = f
+			} else if pred := existentialPredicate(c); pred != nil {
+				// slices.ContainsFunc(xs, func(x) bool {...}) is true iff the predicate's last call returned true:
+				// the predicate is analysed once in place and its result stands for the call's result
+				callee, viaPredicate = pred, true
 			}
 		}
 	default:
@@ -883,14 +1015,55 @@ func (e *pathEngine) maybeInline(in ssa.Instruction, st *PState) ([]*PState, boo
 	}
 	// the call itself may also be an event / target (e.g. an inlined helper that is a requirement)
 	e.step(in, st)
+	call := in.(*ssa.Call)
+	// parameters stand for the arguments (closures: free variables are resolved through their bindings)
+	if _, isClosure := call.Common().Value.(*ssa.MakeClosure); !isClosure && !viaPredicate {
+		args := call.Common().Args
+		for i, pa := range callee.Params {
+			if i < len(args) {
+				if t := e.aliasTarget(st, args[i]); t != e.vkey(pa) {
+					st.alias[e.vkey(pa)] = t
+				}
+			}
+		}
+	}
 	e.depth++
 	outs := e.run(callee, st)
 	e.depth--
-	// connect the result(s): alias the call value to the returned value where unambiguous
+	// the call's results stand for what the callee returned on this path
+	raw := e.vkeyRaw(call)
 	for _, o := range outs {
-		_ = o
+		ret := o.ret
+		o.ret = nil
+		if ret == nil {
+			continue
+		}
+		for i, res := range ret.Results {
+			k := fmt.Sprintf("%s#%d", raw, i)
+			if t := e.aliasTarget(o, res); t != k {
+				o.alias[k] = t
+			}
+		}
 	}
 	return outs, true
+}
+
+// existentialPredicate: for slices.ContainsFunc(xs, pred) with pred a function literal, the literal.
+func existentialPredicate(c *ssa.CallCommon) *ssa.Function {
+	sc := c.StaticCallee()
+	if sc == nil || len(c.Args) != 2 {
+		return nil
+	}
+	o := origin(sc)
+	if o.Pkg == nil || o.Pkg.Pkg.Path() != "slices" || o.Name() != "ContainsFunc" {
+		return nil
+	}
+	if mc, ok := c.Args[1].(*ssa.MakeClosure); ok {
+		if f, ok := mc.Fn.(*ssa.Function); ok {
+			return f
+		}
+	}
+	return nil
 }
 
 // RetNil tells whether result #idx of a Return is nil in this state (True/False/Unknown).
